@@ -63,8 +63,10 @@ def _wd_loop():
             ctx.evaluations += 1
             ctx.violations.append({"bucket": "poly.no_result(hang)" + (".w1" if len(case["raster"]["data"][0]) == 1 else ""),
                                    "msg": "polygonize did not return within %d s (boundary following never closes)" % HANG_S, "case": case})
-            if len(sys.argv) == 7 and sys.argv[1] == PROP:      # running under vlib.worker: argv[6] is the report file
-                with open(sys.argv[6], "w") as f:
+            # report file of this worker: $VERIF_WORKER_OUT if the worker exports it, else argv[6] of `python -m vlib.worker ...`
+            out = os.environ.get("VERIF_WORKER_OUT") or (sys.argv[6] if len(sys.argv) >= 7 else None)
+            if out:
+                with open(out, "w") as f:
                     json.dump(ctx.to_json(), f, default=str)
                 os._exit(0)
             os._exit(3)
